@@ -401,6 +401,49 @@ def build_cases(rng, tier):
                            ["= found%d" % where, "= self=L0", "= " + ("true" if where == 0 and kind == "data" else "false")])
                     yield ("lookup missing depth %d" % depth, case_lines(obj_src("a", base), ["print '= {a.nothere}'"]), ["E"])
 
+LOOP_OBJ = """cnt = {n: 0}
+hit = |v|
+  cnt.n += 1
+  v
+a =
+  tag: 'A'
+  @+: |o| hit 1
+  @-: |o| throw koto.unimplemented
+  @*: |o| throw 'boom'
+  @+=: |o| hit self
+  @==: |o| hit false
+  @<: |o| hit true
+  @negate: || hit 2
+  @index: |i| hit 3
+  @index_assign: |i, v| hit null
+  @call: |x| hit 4
+  @size: || hit 5
+  @display: || hit 'shown'
+  @iterator: || hit (7, 8)
+b =
+  tag: 'B'
+  @r-: |o| hit 6
+  @r+: |o| hit 9
+"""
+
+def loop_cases():
+    """Every operation class 400 times inside one frame (function body and top level): the per-call registers of
+    overloads must not pile up, results and call counts stay exact."""
+    ops = [("add", "r = a + 1", "1", 1), ("radd", "r = 1 + b", "9", 1), ("unimpl-rhs", "r = a - b", "6", 1), ("unimpl-error", "r = try\n  a - 1\ncatch _\n  'E'", "E", 0),
+           ("throw", "r = try\n  a * 1\ncatch _\n  'E'", "E", 0), ("compound", "r = a\nr += 1\nr = 'same'", "same", 1), ("eq", "r = a == 1", "false", 1), ("ne", "r = a != 1", "true", 1),
+           ("lt", "r = a < 1", "true", 1), ("le", "r = a <= 1", "true", 1), ("gt", "r = a > 1", "false", 1), ("ge", "r = a >= 1", "false", 1), ("negate", "r = -a", "2", 1),
+           ("index", "r = a[0]", "3", 1), ("index-assign", "a[0] = 1\nr = 'done'", "done", 1), ("call", "r = a(1)", "4", 1), ("size", "r = size a", "5", 1),
+           ("display", "r = '{a}'", "shown", 1), ("iterate", "r = 0\nfor v in a\n  r += v", "15", 1), ("mixed", "r = (a + 1) + (1 + b) + (-a) + (a - b)", "18", 4)]
+    for name, body, want, calls in ops:
+        for ctx in ("function", "top"):
+            ind = "    " if ctx == "function" else "  "
+            loop = ["for i_ in 0..400"] + [ind[2:] + "  " + l if False else "  " + l for l in body.split("\n")]
+            if ctx == "function":
+                lines = LOOP_OBJ.split("\n")[:-1] + ["f_ = ||", "  r = null"] + ["  " + l for l in loop] + ["  r", "try", "  print '= {f_()} {cnt.n}'", "catch e_", "  print 'E'"]
+            else:
+                lines = LOOP_OBJ.split("\n")[:-1] + ["r = null", "try"] + ["  " + l for l in loop] + ["  print '= {r} {cnt.n}'", "catch e_", "  print 'E'"]
+            yield ("loop %s %s" % (name, ctx), lines, ["= %s %d" % (want, calls * 400)])
+
 def render(cases):
     out, want = [PRELUDE], []
     for k, (label, lines, exp) in enumerate(cases):
@@ -423,7 +466,7 @@ def split(stdout):
 def _shard(shard, n, tier, seed):
     w = Worker()
     rep = {"violations": [], "cases": 0, "classes": {}, "samples": [], "trace_lines": 0}
-    cases = [c for i, c in enumerate(build_cases(random.Random(seed), tier)) if i % n == shard]
+    cases = [c for i, c in enumerate(list(build_cases(random.Random(seed), tier)) + list(loop_cases())) if i % n == shard]
     for i in range(0, len(cases), 20):
         batch = cases[i:i + 20]
         text, want = render(batch)
